@@ -108,17 +108,17 @@ theorem relinkFns_length (ev : Bool) : ∀ (l : List Nat) (st st' : VSt), relink
     split at h
     · cases h
     · split at h
+      · exact relinkFns_length ev rest st st' h
       · split at h
-        · exact relinkFns_length ev rest st st' h
+        · cases h
         · split at h
-          · cases h
           · split at h
             · cases h
             · next syms1 hp =>
               have := relinkFns_length ev rest _ st' h
               have hl := pinChain_length _ _ _ _ hp
               exact ⟨by simpa [hl] using this.1, this.2⟩
-      · exact relinkFns_length ev rest st st' h
+          · exact relinkFns_length ev rest st st' h
 
 theorem mergeSymbols_length : ∀ (fuel : Nat) (syms : Syms) (a b : Nat) (syms' : Syms) (r : Nat),
     mergeSymbols fuel syms a b = some (syms', r) → syms'.length = syms.length
